@@ -6,4 +6,4 @@ META = dict(trusted_base=COMMON_TB + [
 
 
 def items(tier):
-    return contract_items("C04") + [dict(kind="enum", spec="lemmas.l_c04:wordlist")]
+    return contract_items("C04", tier) + [dict(kind="enum", spec="lemmas.l_c04:wordlist")]
